@@ -179,6 +179,10 @@ Reps(cls) ==
      LET same == {h \in 0..(Len(cls) - 1) : cls[h + 1] = cls[g + 1]}
      IN Cardinality({h \in same : h < g}) <= 1 \/ \A h \in same : h <= g}
 
+(* the first gap of every class *)
+Firsts(cls) ==
+  {g \in 0..(Len(cls) - 1) : \A h \in 0..(g - 1) : cls[h + 1] # cls[g + 1]}
+
 (* where a choice may stand *)
 ChoiceOK(sk, g, pos, c) ==
   /\ (c = "BOM" => g = 0 /\ pos = 1)
